@@ -16,7 +16,7 @@ from props.c06_pool import POOL
 PROP = "C06"
 MC = os.path.join(ROOT, "spec/mc/MC_Transformer.tla")
 TRACE = os.path.join(ROOT, "spec/trace/Trace_C06.tla")
-ALL_SS = ["S1", "S2", "S3", "S4", "S5", "S6", "S7", "S8", "SD1", "SD2", "SE", "SU", "SM", "SX", "SV"]
+ALL_SS = ["S1", "S2", "S3", "S4", "S5", "S6", "S7", "S8", "S9", "SD1", "SD2", "SE", "SU", "SM", "SX", "SV"]
 ALL_SRC = ["D1", "D2", "DX"]
 CLASSES = {"ok", "terminated", "xpathError", "extError", "encoding", "unserializable", "missingDoc",
            "malformedSS", "invalidSS", "malformedSrc"}
@@ -32,7 +32,7 @@ def cfg_text(c, check):
     s = ["SPECIFICATION MCSpec", "CONSTANTS", "  PNames <- PoolPNames", "  PVals <- PoolPVals", "  FNames <- PoolFNames",
          "  MaxHist = %d" % c["hist"], "  MaxH = %d" % c["maxh"], "  CompileDocs = " + tla_set(c["compile"]),
          "  ParseDocs = " + tla_set(c["parse"]), "  InlineSS = " + tla_set(c["inline_ss"]), "  InlineSrc = " + tla_set(c["inline_src"]),
-         "  Vals = " + tla_set(c["vals"]), "VIEW " + ("ViewMC" if check else "View")]
+         "  Vals = " + tla_set(c["vals"]), "  Fns = " + tla_set(c.get("fns", ["f"])), "VIEW " + ("ViewMC" if check else "View")]
     if check:
         s += ["INVARIANT Refinement", "INVARIANT TypeInv", "INVARIANT ImplAgrees", "INVARIANT OracleDeterministic", "PROPERTY Sticky"]
     return "\n".join(s) + "\n"
@@ -58,7 +58,7 @@ def changes_overload(ops):
 
 def random_history(rng, n, c):
     """a legal call history of length n (handles live); deeper than the TLC-exported ones"""
-    ops, live_ss, live_src, nss, nsrc, expr, cur, fn = [], [], [], 0, 0, set(), {}, False
+    ops, live_ss, live_src, nss, nsrc, expr, cur, fn = [], [], [], 0, 0, set(), {}, {"f": False, "g": False, "h": False}
     ok_ss = [d for d in ALL_SS if d not in ("SX", "SV")]
     while len(ops) < n:
         r = rng.random()
@@ -71,14 +71,15 @@ def random_history(rng, n, c):
             if d != "DX":
                 nsrc += 1; live_src.append(nsrc)
         elif r < 0.24:
-            v = rng.choice(c["vals"])
+            v = rng.choice(c["vals"] + ["nz", "pz"])
             ops.append({"op": "SetParam", "k": "p", "v": v}); cur["p"] = v
             if v in EXPR_VALS:
                 expr.add("p")
         elif r < 0.28:
             ops.append({"op": "ClearParams"}); expr, cur = set(), {}
         elif r < 0.36:
-            fn = not fn; ops.append({"op": "InstallFn" if fn else "UninstallFn", "f": "f"})
+            f_ = rng.choice(["f", "f", "g", "h"])
+            fn[f_] = not fn[f_]; ops.append({"op": "InstallFn" if fn[f_] else "UninstallFn", "f": f_})
         elif r < 0.40 and live_ss:
             h = rng.choice(live_ss); live_ss.remove(h); ops.append({"op": "DestroySS", "h": h})
         elif r < 0.44 and live_src:
@@ -298,7 +299,9 @@ def constants(tier):
                 ("vars", dict(mc, hist=5, compile=["S5", "S6"], parse=[], inline_ss=["S5", "S6", "S1"], inline_src=["D1"])),
                 ("fmt", dict(mc, hist=4, compile=["SD1", "SD2"], parse=[], inline_ss=["S1", "S3", "SD1", "SD2"], inline_src=["D1"], vals=[])),
                 ("sort", dict(mc, hist=5, compile=["S7"], parse=[], inline_ss=["S7", "S2"], inline_src=["D1", "D2"])),
-                ("rtf", dict(mc, hist=5, compile=["S8"], parse=[], inline_ss=["S8", "S3"], inline_src=["D1", "D2"]))]
+                ("rtf", dict(mc, hist=5, compile=["S8"], parse=[], inline_ss=["S8", "S3"], inline_src=["D1", "D2"])),
+                ("zeros", dict(mc, hist=4, compile=[], parse=[], inline_ss=["S1"], inline_src=["D1"], vals=["nz", "pz", "num"], fns=[])),
+                ("fns2", dict(mc, hist=5, compile=[], parse=[], inline_ss=["S4", "S9"], inline_src=["D1"], vals=[], fns=["f", "g", "h"]))]
         kd = dict(mc, hist=4, compile=["S3"], parse=["D1"], inline_ss=["S1", "S2", "S4"], inline_src=["D1"], vals=["str", "num", "obj"])
     else:
         mc = dict(hist=6, maxh=2, compile=["S2", "S3", "S4", "SX"], parse=["D1", "D2", "DX"], inline_ss=NO_FMT, inline_src=ALL_SRC, vals=["str", "num", "obj"])
@@ -309,7 +312,9 @@ def constants(tier):
                 ("vars", dict(mc, hist=7, maxh=1, compile=["S5", "S6"], parse=["D1"], inline_ss=["S5", "S6", "S1", "S2"], inline_src=["D1", "D2"])),
                 ("fmt", dict(mc, hist=5, maxh=2, compile=["SD1", "SD2"], parse=["D1"], inline_ss=["S1", "S3", "SD1", "SD2"], inline_src=["D1", "D2"], vals=["str"])),
                 ("sort", dict(mc, hist=6, maxh=1, compile=["S7"], parse=["D1"], inline_ss=["S7", "S2", "S3"], inline_src=["D1", "D2"])),
-                ("rtf", dict(mc, hist=6, maxh=1, compile=["S8"], parse=["D1"], inline_ss=["S8", "S2", "S3"], inline_src=["D1", "D2"]))]
+                ("rtf", dict(mc, hist=6, maxh=1, compile=["S8"], parse=["D1"], inline_ss=["S8", "S2", "S3"], inline_src=["D1", "D2"])),
+                ("zeros", dict(mc, hist=6, maxh=1, compile=["S1"], parse=[], inline_ss=["S1", "S9"], inline_src=["D1"], vals=["nz", "pz", "num", "str"], fns=["g"])),
+                ("fns2", dict(mc, hist=7, maxh=1, compile=["S9"], parse=[], inline_ss=["S4", "S9"], inline_src=["D1"], vals=[], fns=["f", "g", "h"]))]
         kd = dict(mc, hist=5, maxh=1, compile=["S3"], parse=["D1"], inline_ss=["S1", "S2", "S4"], inline_src=["D1"])
     return mc, gens, kd
 
